@@ -36,7 +36,7 @@ PROPS = {
              "long-term average, and the full C02 validity/lock-step oracle on every packet; non-trivial = a control change took effect after the first frame and >=5 calls succeeded; "
              "distinct = 64-bit signature over (TOC, duration, tiny flag, small-MTU flag, ctl outcome) sequence",
         fault_keys=["ctl_applied", "ctl_rejected", "mtu_le4", "enc_invalid_args", "enc_refused"],
-        probes_required=["cbr_checked", "cbr_max_fill", "ms_cbr_checked", "ms_cbr_exact_checked", "cvbr_checked", "mode_silk", "mode_hybrid", "mode_celt"],
+        probes_required=["cbr_checked", "cbr_max_fill", "ms_cbr_checked", "ms_cbr_exact_checked", "cvbr_checked", "cvbr_switching_checked", "mode_silk", "mode_hybrid", "mode_celt"],
         real=REAL_CODEC, simulated=SIM_COMMON,
         assumptions=ASSUME_COMMON + ["CBR size accepted when within 0.5+1/12 byte of bitrate*duration/8 (the code rounds in 1/12-byte units)"],
     ),
